@@ -37,7 +37,14 @@ THeader ==
   /\ stk' = <<>> /\ keymap' = <<>> /\ ret' = Unknown /\ UNCHANGED pos
 
 TWorkerStart == /\ IsEvent("WorkerStart") /\ stk' = <<>> /\ ret' = Unknown /\ UNCHANGED <<pos, keymap, hist, root, mate>>
-TWorkerEnd == /\ IsEvent("WorkerEnd") /\ Diag("DRIFT", stk = <<>>, [kind |-> "worker ended with frames on its stack", depth |-> Len(stk)]) /\ stk' = <<>> /\ UNCHANGED <<pos, keymap, hist, ret, root, mate>>
+\* at the end of every worker's iteration: no two keys met so far in this search stand for the same position (a position
+\* is entered under one key however it is reached - quiet move, capture, move that gives up a right)
+OneKeyPerPosition == Cardinality({ keymap[k] : k \in DOMAIN keymap }) = Cardinality(DOMAIN keymap)
+TwoKeys == LET ks == CHOOSE pr \in (DOMAIN keymap) \X (DOMAIN keymap) : pr[1] # pr[2] /\ keymap[pr[1]] = keymap[pr[2]] IN
+           [kind |-> "one position is entered under two different table keys in one search", keys |-> <<ks[1], ks[2]>>, board |-> keymap[ks[1]][1], stm |-> keymap[ks[1]][2]]
+TWorkerEnd == /\ IsEvent("WorkerEnd") /\ Diag("DRIFT", stk = <<>>, [kind |-> "worker ended with frames on its stack", depth |-> Len(stk)])
+              /\ (IF OneKeyPerPosition THEN TRUE ELSE Diag("C08", FALSE, TwoKeys))
+              /\ stk' = <<>> /\ UNCHANGED <<pos, keymap, hist, ret, root, mate>>
 
 \* ---- entering a node -----------------------------------------------------------------------
 TEnter ==
